@@ -3,7 +3,7 @@ scenario generation (seeded random histories and TLC-generated histories), execu
 library through harness/grid_replay.cpp, validation of the recorded executions by TLC against
 spec/GridTrace.tla, and attribution of each rejection to the property it concerns."""
 import json
-import os
+import os, time
 import re
 
 import vf
@@ -376,12 +376,13 @@ def req_name(reqtext):
     return reqtext.strip('"')
 
 
-def run_grid(ctx, scen_sets, obs_mask, prop, chunk=30, timeout=240, variant="hooks", env=None, tag="", keep_traces=None, exec_nproc=None, driver="grid_replay.cpp", own_all=False):
+def run_grid(ctx, scen_sets, obs_mask, prop, chunk=None, timeout=240, variant="hooks", env=None, tag="", keep_traces=None, exec_nproc=None, driver="grid_replay.cpp", own_all=False):
     """scen_sets: list of (label, [scenario text]).  Executes on the real library, validates with TLC,
     reports rejections that concern `prop`; others are counted as foreign (and examined by their own check)."""
     lib = vf.build_lib(variant)
     drv = vf.compile_driver(driver, lib)
     wd = vf.workdir(prop.lower() + tag)
+    chunk = chunk or (10 if ctx.quick else 25)
     files = []
     nscen = 0
     for label, scens in scen_sets:
@@ -439,14 +440,31 @@ def run_grid(ctx, scen_sets, obs_mask, prop, chunk=30, timeout=240, variant="hoo
         vf.write_ndjson(tp, done_rows)
         return 0
 
+    t_x = time.time()
     vf.parallel_map(exec_one, files, nproc=exec_nproc)
+    if os.environ.get("VERIF_TIMING"):
+        print("exec wall %.1fs" % (time.time() - t_x))
     for c in crashes:
         act = c["crashing_line_approx"].split()
         act = [a for a in act if not a.startswith("@")]
         sig = "crash:%s:%s" % (act[0] if act else "?", "hang" if c["timed_out"] else "rc=%s" % c["rc"])
         ctx.report(sig, "the library crashed or hung inside a scripted call (no exception): %s" % json.dumps(c)[:1500], c)
     ctx.extra["driver_crashes"] = len(crashes)
-    res = vf.parallel_map(validate_file, [f[2] for f in files], nproc=16)
+    def timed_validate(tp):
+        t0 = time.time()
+        r = validate_file(tp)
+        r["wall"] = time.time() - t0
+        return r
+
+    t_exec = time.time()
+    # longest traces first so that the tail of the pool is short
+    order = sorted(range(len(files)), key=lambda i: -os.path.getsize(files[i][2]))
+    res_o = vf.parallel_map(timed_validate, [files[i][2] for i in order], nproc=16)
+    res = [None] * len(files)
+    for i, r in zip(order, res_o):
+        res[i] = r
+    if os.environ.get("VERIF_TIMING"):
+        print("validate wall %.1fs; slowest: %s" % (time.time() - t_exec, sorted([(round(r["wall"], 1), os.path.basename(f[2])) for f, r in zip(files, res)], reverse=True)[:6]))
     foreign = {}
     for f, r in zip(files, res):
         ctx.traces += r["ok"]
@@ -613,18 +631,27 @@ def mc_and_scripts(ctx, names, rnd, cap, maxlen=None, maxpts=None, mc=True, genl
     wd = vf.workdir(ctx.prop.lower() + "-mc")
     out = []
 
-    def one(name):
-        res = {}
-        if mc:
+    def one(task):
+        kind, name = task
+        t0 = time.time()
+        if kind == "mc":
             c = os.path.join(wd, "MC-%s.cfg" % name)
             open(c, "w").write(mc_cfg_text(name, False, maxlen, maxpts))
-            res["mc"] = vf.run_tlc("GridMC.tla", c, workers=8, timeout=1800, xmx="6g")
-        c = os.path.join(wd, "Gen-%s.cfg" % name)
-        open(c, "w").write(mc_cfg_text(name, True, genlen, maxpts))     # shorter histories: one script per abstract edge is printed
-        res["gen"] = vf.run_tlc("GridMC.tla", c, workers=1, timeout=1800, xmx="6g")
-        return res
+            r = vf.run_tlc("GridMC.tla", c, workers={"seq": 12, "globalcc": 8, "globalleja": 8}.get(name, 2), timeout=3600, xmx="8g")
+        else:
+            c = os.path.join(wd, "Gen-%s.cfg" % name)
+            open(c, "w").write(mc_cfg_text(name, True, genlen, maxpts))     # shorter histories: one script per abstract edge is printed
+            r = vf.run_tlc("GridMC.tla", c, workers=6, timeout=1800, xmx="6g")     # PrintT lines are written under the stream lock
+        if os.environ.get("VERIF_TIMING"):
+            print("GridMC %s %s %.1fs" % (kind, name, time.time() - t0))
+        return r
 
-    results = vf.parallel_map(one, names, nproc=3)
+    tasks = ([("mc", nm) for nm in names] if mc else []) + [("gen", nm) for nm in names]
+    tasks.sort(key=lambda t: 0 if t == ("mc", "seq") else 1 if t[0] == "mc" and t[1].startswith("global") else 2)
+    rs = vf.parallel_map(one, tasks, nproc=len(tasks))
+    results = [{} for _ in names]
+    for (kind, nm), r in zip(tasks, rs):
+        results[names.index(nm)][kind] = r
     for name, res in zip(names, results):
         if mc:
             r = res["mc"]
